@@ -493,6 +493,29 @@ theorem vesting_bounded {I T cfg st} (h : Reach I T cfg st) (p : Plan) (hp : st.
   have := (vestedBy_bounds p.vest st.now h1 h4).2
   exact ⟨h2, by omega, (hi.post p hp hs).2.2.2.1⟩
 
+/-- only the rollapp owner (actor 0) can claim vested liquidity, and only after settlement -/
+theorem vesting_only_owner {I T} {st : State} (a : Nat)
+    (h : a ≠ 0 ∨ ∀ p, st.plan = some p → p.settled = false) :
+    (step I T st (.claimv a)).1 = st ∧ (step I T st (.claimv a)).2 ≠ .ok := by
+  have hex : ∃ e, exec I T st (.claimv a) = .error e ∧ e ≠ .ok := by
+    simp only [exec, doClaimVested]
+    cases hp : st.plan with
+    | none => exact ⟨.notFound, rfl, by decide⟩
+    | some p =>
+      simp only []
+      by_cases hs : p.settled = true
+      · rcases h with ha | hn
+        · exact ⟨.denied, by simp [hs, ha], by decide⟩
+        · have := hn p hp; rw [hs] at this; cases this
+      · exact ⟨.notSettled, by simp [hs], by decide⟩
+  obtain ⟨e, he, hne⟩ := hex
+  obtain ⟨h1, h2 | h2⟩ := step_of_exec_err he
+  · exact ⟨h1, by rw [h2]; exact hne⟩
+  · exact ⟨h1, by rw [h2]; decide⟩
+
+example : (step demoI demoT (run demoI demoT (init demoCfg) demoSettled) (.claimv 1)).2 = .denied ∧
+    (step demoI demoT (run demoI demoT (init demoCfg) demoSettled) (.claimv 0)).2 = .ok := by decide
+
 /- Full statement of "no faster than the linear schedule" (FALSE for the code as it is, see
    `vesting_not_faster_than_linear_counterexample`; finding F16): for start ≤ now ≤ stop
      (stop − start)·claimed ≤ amount·(now − start)
